@@ -17,6 +17,13 @@ ObsOK(obs, CC2, CT2, I2) ==
     /\ \A i \in 1..Len(obs.classes) : ClassObsOK(obs.classes[i], CC2, CT2)
     /\ Len(obs.inst) = Len(I2)
     /\ \A i \in 1..Len(I2) : obs.inst[i].tag = I2[i].tag /\ obs.inst[i].comps = I2[i].comps /\ obs.inst[i].cls = I2[i].cls
+    \* the instance-level API (agent[T], get_component, has_component, len, in): growth beyond C20's claim, same definitions
+    /\ \A i \in 1..Len(I2) : I2[i].cls # "Environment" => obs.inst[i].len = Len(I2[i].comps)   \* len(environment) counts its agents
+    /\ \A i \in 1..Len(I2) : \A k \in 1..Len(obs.inst[i].api) :
+          LET T == obs.inst[i].api[k][1]  has == HasT(I2[i].comps, T) IN
+          /\ obs.inst[i].api[k][2] = has                                   \* T in agent, has_component(T)
+          /\ obs.inst[i].api[k][3] = (IF has THEN (CHOOSE c \in {I2[i].comps[j] : j \in 1..Len(I2[i].comps)} : c[1] = T)[2] ELSE 0)
+          /\ obs.inst[i].api[k][4] = (IF has THEN "ok" ELSE "ComponentNotFoundError")   \* get_component(T, throw_error=True)
 
 TrAttachClass == /\ Ev.op = "attach_class"
                  /\ \/ Ev.out = "ok" /\ AttachClass(Ev.cls, Ev.T, Ev.s)
